@@ -170,6 +170,15 @@ CHECKS = {
             "minimalloc's own correctness assumed (contract stub); dynamic mode out of scope; lifetime programs sampled by VERIF_SEED "
             "(2..3 buffers, nesting <= 2).",
             "symbolic execution of the real passes (int proxies as IR constants) + symbolic IR interpreter + z3; nondeterministic contract stub for the external solver", "3/C11"),
+    "C14": (TV,
+            "Translation validation of dispatch-regions{nb_cores=N} (N in {2,3,4,8}): generated functions (nested scf.for/scf.if, "
+            "memref.copy, linalg.generic, dart streaming regions on snax_gemmx/snax_xdma, other ops, adjacent and separated, optionally "
+            "two blocks) run before/after the pass in the IR interpreter with a symbolic core id (0<=id<N), symbolic loop bounds and "
+            "branch conditions; on every path the trace of tagged effectful ops must equal the original trace filtered by an "
+            "independent classification (data movement iff id==N-1, compute iff id==0, everything else always), order preserved.",
+            "programs sampled by VERIF_SEED; K=2 unrolling; the solver's share is small (three classes of core id + control paths); "
+            "function-constant-pinning is upstream code and not claimed.",
+            "bounded symbolic execution of before/after IR with a symbolic core id + trace comparison per path", "3/C14"),
 }
 
 NOT_YET = "check not built yet (work in progress in this round); no claim is made"
